@@ -448,6 +448,10 @@ func rule1312(r *core.Run) {
 		if ex, ok := st.Val.(*ssa.Extract); ok && ex.Tuple == ssa.Value(parse) {
 			continue
 		}
+		// the parsed page itself handed on (through a helper's parameter and result, a local copy)
+		if vs := r.P.SliceOf(st.Val, core.SliceOpts{Depth: 0}); vs.HasCallTo("gofakes3.listBucketVersionsPageFromQuery") || vs.HasValue(parse) {
+			continue
+		}
 		if core.Reaches(parse, st) {
 			over = append(over, st)
 		}
